@@ -214,6 +214,9 @@ static void poll(int k) {
         mon("C11").nontrivial(verif::mix(verif::hstr(decl::declaration_name), ch * 7 + k));
     }
     mon("C10").nontrivial(verif::mix(verif::mix(verif::hstr(decl::declaration_name), ch), (ind ? 1 : 0) + 2 * k + 8 * (v.size() == c.mtu() - 3)));
+    mon("C10").sample(where + " chr " + std::to_string(ch) + " cccd=" + std::to_string(c.cccd[mc.cccd_ord]) + " pdu=" + verif::hex(pdu), 3);
+    if (ind) mon("C11").sample(where + " indication chr " + std::to_string(ch) + " pdu=" + verif::hex(pdu) + " (then held until confirmation)", 3);
+    mon("C08").sample(where + " outgoing pdu length " + std::to_string(pdu.size()) + " negotiated mtu " + std::to_string(c.mtu()), 3);
     mon("C08").nontrivial(verif::mix(verif::hstr(decl::declaration_name), 0x1000 + c.mtu() * 4 + (pdu.size() == c.mtu())));
 }
 
@@ -385,6 +388,7 @@ static void cccd_sweep() {
                     verif::violation("C09", "C09:readback:cccd_differs_from_last_write", "decl=" + std::string(decl::declaration_name) + " conn=" + std::to_string(k) + " chr=" + std::to_string(i) +
                                      " read " + verif::hex(rsp) + " expected " + std::to_string(g_state->conn[k].cccd[c.cccd_ord]), g_step);
                 mon("C09").nontrivial(verif::mix(verif::mix(verif::hstr(decl::declaration_name), i * 4 + rsp[1]), k));
+                if (rsp[1]) mon("C09").sample("decl=" + std::string(decl::declaration_name) + " conn=" + std::to_string(k) + " cccd handle " + std::to_string(c.cccd_h) + " read back " + verif::hex(rsp) + " model " + std::to_string(g_state->conn[k].cccd[c.cccd_ord]), 3);
             }
             // configured_for_* accessors
             if (c.conf_any) {
